@@ -2,6 +2,7 @@ import SafeNet.Proofs.StoreReach
 import SafeNet.Proofs.StoreIds
 import SafeNet.Proofs.StoreStart
 import SafeNet.Proofs.StoreCipher
+import SafeNet.Proofs.StoreFault
 /-!
 # C02 — a restarted node never serves corrupted records and keeps completed writes
 
@@ -11,6 +12,11 @@ runs, except that each listed in-flight write `(id, n)` has written the first `n
 same identity (`restart`: start-up scan, index/distance index/farthest rebuilt, payment count restored).
 Which tasks had completed before the stop is part of the history (`Op.run`), so the theorems quantify
 over all subsets of completed tasks allowed by per-key FIFO, and over all torn prefixes.
+
+Which hypotheses each theorem carries: none beyond `encrypt = true` — `restart_sound`, `restart_sound_faults`,
+`restart_keeps_completed(_reachable)`, `restart_removed_stay_removed`, `torn_file_gone_after_restart`,
+`crash_after_failed_write`, `crash_after_failed_open_keeps_previous`, the start-up theorems; `NoRemoveWhileInFlight`
+(and per-key FIFO): `restart_keeps_completed_history` = `…_history_partial`, `restart_removed_history` = `…_history_partial`.
 -/
 namespace SafeNet.Props.C02
 open SafeNet.Store
@@ -459,6 +465,145 @@ example :
 #print axioms SafeNet.Props.C02.shipped_encrypts
 #print axioms SafeNet.Props.C02.scan_has_no_size_test
 #print axioms SafeNet.Props.C02.scan_accepts_every_key_length
+/-! ## correctly named aliases of the two theorems that carry `NoRemoveWhileInFlight` -/
+
+theorem restart_keeps_completed_history_partial (cfg : Cfg) (dist : Nat → Nat) (ops : List Op)
+    (hn : NoRemoveWhileInFlight cfg dist (init cfg dist) ops)
+    (torn : List (Nat × Nat)) (hok : torn.all (tearOk (run cfg dist ops)) = true) (k v i : Nat) (rt : RType)
+    (hlast : lastEvent cfg dist ops k = some (v, rt, i)) (hran : ¬ hasWrite (run cfg dist ops) k)
+    (hhdr : hdrClass v ≠ .bad) :
+    let s' := (step cfg dist (run cfg dist ops) (.crash torn)).1
+    get cfg s' k = some (.whole v) ∧ contains s' k = true :=
+  restart_keeps_completed_history cfg dist ops hn torn hok k v i rt hlast hran hhdr
+
+theorem restart_removed_history_partial (cfg : Cfg) (dist : Nat → Nat) (ops : List Op)
+    (hn : NoRemoveWhileInFlight cfg dist (init cfg dist) ops)
+    (torn : List (Nat × Nat)) (hok : torn.all (tearOk (run cfg dist ops)) = true) (k : Nat)
+    (hlast : lastEvent cfg dist ops k = none) (hdone : ¬ hasDelete (run cfg dist ops) k) :
+    let s' := (step cfg dist (run cfg dist ops) (.crash torn)).1
+    get cfg s' k = none ∧ contains s' k = false ∧ lookup k s'.disk = none :=
+  restart_removed_history cfg dist ops hn torn hok k hlast hdone
+
+/-! ## a stop after a FAILED write (`Model/StoreFault`) -/
+
+/-- **A restarted node serves nothing or a whole previously validated value — with failing writes in the history.**
+A failed write leaves a torn or empty file that is neither a crash artefact nor complete; the invariant is the same. -/
+theorem restart_sound_faults (cfg : Cfg) (henc : cfg.encrypt = true) (dist : Nat → Nat) (fops : List FOp)
+    (torn : List (Nat × Nat)) (k : Nat) (r : Read)
+    (h : get cfg (fstep cfg dist (frun cfg dist fops) (.base (.crash torn))).1.s k = some r) :
+    ∃ v rt, r = .whole v ∧ FOp.base (.put k v rt) ∈ fops := by
+  have hs : Sound (fun k v => ∃ rt, FOp.base (.put k v rt) ∈ fops) (frun cfg dist fops).s :=
+    Sound.frunFrom fops (Sound.init cfg dist) (fun op ho k v rt e => ⟨rt, e ▸ ho⟩)
+  have hs' := hs.fstep (cfg := cfg) (dist := dist) (.base (.crash torn)) (fun k v rt e => by cases e)
+  obtain ⟨⟨rt, hp⟩, hw⟩ := hs'.get h
+  obtain ⟨v, rfl⟩ := hw henc
+  exact ⟨v, rt, rfl, hp⟩
+
+/-- **A torn file is gone after a restart**, whatever left it (a stop inside the write, or a write that failed after
+`n` bytes): with record encryption the start-up scan does not index it and deletes it. -/
+theorem torn_file_gone_after_restart (cfg : Cfg) (henc : cfg.encrypt = true) (dist : Nat → Nat) (s : St)
+    (hd : (keys s.disk).Nodup) (torn : List (Nat × Nat)) (hok : torn.all (tearOk s) = true) (k v n : Nat)
+    (hfile : lookup k s.disk = some (.torn v n)) (hq : ∀ i v rt, (i, Task.write k v rt) ∉ s.tasks) :
+    let s' := (step cfg dist s (.crash torn)).1
+    get cfg s' k = none ∧ contains s' k = false ∧ lookup k s'.disk = none := by
+  simp only [step, hok, ↓reduceIte]
+  have hcd : lookup k (crashDisk s torn) = some (.torn v n) := by
+    rw [lookup_crashDisk_of_no_write s torn k hq]; exact hfile
+  have hnd := nodup_crashDisk hd torn
+  have hse : scanEntry cfg k (.torn v n) = none := by
+    have hsz : oversized cfg (.torn v n) = false := by
+      simp [oversized, show Gen.Store.scanDropsOversized = false from rfl]
+    simp [scanEntry, scanType, hsz, readFile, henc, show Gen.Store.decryptFailureSkips = true from rfl]
+  have honly : ∀ f, (k, f) ∈ crashDisk s torn → f = .torn v n := by
+    intro f hf
+    have := lookup_of_mem hnd hf
+    rw [hcd] at this; cases this; rfl
+  have hidx : lookup k (scanIndex cfg (crashDisk s torn)) = none := by
+    cases hl : lookup k (scanIndex cfg (crashDisk s torn)) with
+    | none => rfl
+    | some rt =>
+      obtain ⟨f, hf, hs⟩ := mem_scanIndex.mp (lookup_some_mem hl)
+      rw [honly f hf, hse] at hs; cases hs
+  have hdisk : lookup k ((crashDisk s torn).filter (fun e => (scanEntry cfg e.1 e.2).isSome || !nameKept e.1)) = none := by
+    apply lookup_none_iff.mpr
+    intro hm
+    simp only [keys, List.mem_map] at hm
+    obtain ⟨e, he, hek⟩ := hm
+    obtain ⟨he1, he2⟩ := List.mem_filter.mp he
+    obtain ⟨k', f⟩ := e
+    simp only at hek; subst hek
+    rw [honly f he1] at he2
+    simp [hse, nameKept_true] at he2
+  refine ⟨?_, ?_, hdisk⟩
+  · simp only [SafeNet.Store.get, restart, lookup, hidx]
+  · simp only [contains, restart, hidx, Option.isSome_none]
+
+/-- **Stop after a write that failed part-way** (before or after `RemoveFailedLocalRecord` is handled): the `b`-byte
+file it left is neither indexed nor served by the restarted node and is deleted — also when it replaced a complete
+earlier version of the record (that version was destroyed by the failed overwrite, not by the restart). -/
+theorem crash_after_failed_write (cfg : Cfg) (henc : cfg.encrypt = true) (dist : Nat → Nat) (fs : FSt)
+    (hd : (keys fs.s.disk).Nodup) (id k v b : Nat) (rt : RType)
+    (ht : lookup id fs.s.tasks = some (.write k v rt)) (hl : legalRun fs.s.tasks id (.write k v rt) = true)
+    (hb : b < fileLen cfg.encrypt (.full v))
+    (hq : ∀ i v' rt', (i, Task.write k v' rt') ∈ fs.s.tasks → i = id) :
+    let s1 := (runFail cfg fs id (.full b)).1.s
+    let s' := (step cfg dist s1 (.crash [])).1
+    get cfg s' k = none ∧ contains s' k = false ∧ lookup k s'.disk = none := by
+  intro s1 s'
+  have ho := runFail_outcome cfg fs id k v rt (.full b) ht hl hb
+  simp only at ho
+  have hdisk : s1.disk = insert k (.torn v b) fs.s.disk := ho.2.2.1
+  have htasks : s1.tasks = erase id fs.s.tasks := ho.1
+  apply torn_file_gone_after_restart cfg henc dist s1 (by rw [hdisk]; exact nodup_keys_insert hd) [] (by simp) k v b
+  · rw [hdisk]; exact lookup_insert_self _ _ _
+  · intro i v' rt' hm
+    rw [htasks] at hm
+    obtain ⟨hm1, hm2⟩ := mem_erase.mp hm
+    exact hm2 (hq i v' rt' hm1)
+
+/-- **Stop after a write that failed at the open**: nothing was created or truncated, so a complete earlier version
+of the record (its write had completed; the overwrite never reached the disk) is served again after the restart. -/
+theorem crash_after_failed_open_keeps_previous (cfg : Cfg) (dist : Nat → Nat) (fs : FSt)
+    (hd : (keys fs.s.disk).Nodup) (id k v v1 : Nat) (rt : RType)
+    (ht : lookup id fs.s.tasks = some (.write k v rt)) (hl : legalRun fs.s.tasks id (.write k v rt) = true)
+    (hq : ∀ i v' rt', (i, Task.write k v' rt') ∈ fs.s.tasks → i = id)
+    (hfile : lookup k fs.s.disk = some (.full v1)) (hhdr : hdrClass v1 ≠ .bad) :
+    let s1 := (runFail cfg fs id .openFail).1.s
+    let s' := (step cfg dist s1 (.crash [])).1
+    get cfg s' k = some (.whole v1) ∧ contains s' k = true := by
+  intro s1 s'
+  have ho := runFail_outcome cfg fs id k v rt .openFail ht hl trivial
+  simp only at ho
+  have hdisk : s1.disk = fs.s.disk := ho.2.2.1
+  have htasks : s1.tasks = erase id fs.s.tasks := ho.1
+  apply restart_keeps_completed cfg dist s1 (by rw [hdisk]; exact hd) [] (by simp) k v1 (by rw [hdisk]; exact hfile)
+  · intro i v' rt' hm
+    rw [htasks] at hm
+    obtain ⟨hm1, hm2⟩ := mem_erase.mp hm
+    exact hm2 (hq i v' rt' hm1)
+  · exact hhdr
+
+/-! ## restarting "with the same identity" -/
+
+/-- **Same identity ⇒ same directory, same seed, same cipher.** Two starts of a node with the same root directory and the
+same peer id — whatever else differs between them — open the record store on the same directory (the one the start-up
+check guards), with the same metrics directory, the same `encryption_seed` (the first 16 bytes of the peer id) and the
+same cipher input. Over the definitions regenerated from `build_node` / `with_config`: an edit that takes the seed from
+anything but the identity, or moves the directory from start to start, turns a flag and this no longer checks. -/
+theorem same_identity_same_seed (root : String) (peer : List Nat) (amb1 amb2 : Nat) :
+    storeOpening root peer amb1 = storeOpening root peer amb2 ∧
+    (storeOpening root peer amb1).storageDir = root ++ "/" ++ Gen.Startup.storageDirName ∧
+    Gen.Startup.storageDirName = "record_store" ∧
+    (storeOpening root peer amb1).quoteDir = root ∧
+    (storeOpening root peer amb1).seed = peer.take 16 ∧
+    (storeOpening root peer amb1).cipherInput = peer.take 16 := by
+  refine ⟨rfl, rfl, by decide, rfl, rfl, rfl⟩
+
+/-- and the identity matters: another peer id (differing in its first 16 bytes) gives another seed — the files of the old
+identity do not decrypt (`scan_decrypt_or_skip`) and are deleted by the start-up scan -/
+theorem other_identity_other_seed (root : String) (peer peer' : List Nat) (amb : Nat)
+    (h : peer.take 16 ≠ peer'.take 16) : (storeOpening root peer amb).seed ≠ (storeOpening root peer' amb).seed := h
+
 #print axioms SafeNet.Props.C02.restart_sound
 #print axioms SafeNet.Props.C02.restart_sound_shipped
 #print axioms SafeNet.Props.C02.restart_keeps_completed
@@ -486,4 +631,12 @@ example :
 #print axioms SafeNet.Props.C02.other_id_interrupted_then_complete_wipes
 #print axioms SafeNet.Props.C02.empty_version_file_wipes
 #print axioms SafeNet.Props.C02.unconditional_rewrite_witness
+#print axioms SafeNet.Props.C02.restart_keeps_completed_history_partial
+#print axioms SafeNet.Props.C02.restart_removed_history_partial
+#print axioms SafeNet.Props.C02.restart_sound_faults
+#print axioms SafeNet.Props.C02.torn_file_gone_after_restart
+#print axioms SafeNet.Props.C02.crash_after_failed_write
+#print axioms SafeNet.Props.C02.crash_after_failed_open_keeps_previous
+#print axioms SafeNet.Props.C02.same_identity_same_seed
+#print axioms SafeNet.Props.C02.other_identity_other_seed
 end SafeNet.Props.C02
